@@ -26,13 +26,13 @@ partial def toStr : SExp → String
 /-- Tokenise a line into `(`, `)` and atoms. -/
 def tokens (s : String) : List String :=
   let rec go (cs : List Char) (cur : List Char) (acc : List String) : List String :=
-    let flush := if cur.isEmpty then acc else (String.ofList cur.reverse) :: acc
+    let flush := fun (_ : Unit) => if cur.isEmpty then acc else (String.ofList cur.reverse) :: acc
     match cs with
-    | [] => flush.reverse
+    | [] => (flush ()).reverse
     | c :: cs =>
-      if c = '(' then go cs [] ("(" :: flush)
-      else if c = ')' then go cs [] (")" :: flush)
-      else if c = ' ' || c = '\n' || c = '\r' || c = '\t' then go cs [] flush
+      if c = '(' then go cs [] ("(" :: flush ())
+      else if c = ')' then go cs [] (")" :: flush ())
+      else if c = ' ' || c = '\n' || c = '\r' || c = '\t' then go cs [] (flush ())
       else go cs (c :: cur) acc
   go s.toList [] []
 
